@@ -153,7 +153,7 @@ int main(int argc, char **argv) {
                 for (size_t k = 0; k < len; ++k) offs.push_back(off + k);
         }
         static const uint8_t BV[] = {0x00, 0x01, 0x7F, 0x80, 0xFF, 0x03, 0x40};
-        static const uint16_t WV[] = {0x0000, 0x0001, 0x7FFF, 0x8000, 0xFFFF, 0x00FF, 0x0100, 0xFFFE};
+        static const uint16_t WV[] = {0x0000, 0x0001, 0x7FFF, 0x8000, 0xFFFF, 0x00FF, 0x0100, 0xFFFE, 0x0004, 0x0007, 0x0008, 0x0013, 0x0014};     // incl. small lengths around header sizes
         unsigned long idx = 0;
         for (size_t oi = 0; oi < offs.size(); ++oi) {
             size_t o = offs[oi];
